@@ -36,9 +36,23 @@ type Scenario struct {
 	Faults   []FaultSpec       `json:"faults,omitempty"`
 	Torn     *TornSpec         `json:"torn,omitempty"`
 	RmRepoAt int               `json:"rm_repo_at,omitempty"` // remove the repository directory when process 0 reaches this yield
+	Mutate   *MutateSpec       `json:"mutate,omitempty"`     // another program (not csvq) keeps writing to a file while process 0 works
 	MaxSteps int               `json:"max_steps,omitempty"`
 	MaxSimS  int               `json:"max_sim_s,omitempty"`
 	Meta     map[string]string `json:"meta,omitempty"`
+}
+
+// MutateSpec: a program that knows nothing of csvq's lock files (a logger, an
+// editor, rsync) writes to a table while csvq reads it. Mode "touch" sets a new
+// modification time at every Every-th yield of process 0 (the bytes stay);
+// mode "append" adds Line to the file at every Every-th yield of process 0
+// inside a loader ("load.*" points), at most Max times.
+type MutateSpec struct {
+	File  string `json:"file"`
+	Mode  string `json:"mode"`
+	Every int    `json:"every"`
+	Max   int    `json:"max,omitempty"`
+	Line  string `json:"line,omitempty"`
 }
 
 func (s *Scenario) maxSimTime() time.Duration {
